@@ -135,6 +135,12 @@ def gen_structure(rng, name=None, natoms=None):
             if rng.random() < 0.15:
                 part = rng.choice([0, 1, 2, -1, 0])
             atoms.append({'el': el, 'xyz': [round(x, 5) for x in p], 'part': part})
+    # a shared site: a second atom of another element on exactly the coordinates of an atom (mixed occupancy, refined with EXYZ / EADP), in the
+    # same PART or in PART 1 / PART 2
+    if rng.random() < 0.2 and atoms:
+        src = rng.choice(atoms)
+        other = rng.choice([e for e in ELEMENTS if e != src['el']])
+        atoms.append({'el': other, 'xyz': list(src['xyz']), 'part': src['part'] if rng.random() < 0.6 else rng.choice([1, 2])})
     # disordered hydrogen atoms: the parent in PART 0 (or in a PART), the hydrogens split over PART 1 / PART 2 (or PART 0)
     if rng.random() < 0.35:
         parents = [a for a in atoms if a['el'] not in ('H', 'D')]
